@@ -48,6 +48,18 @@ def _run(k, uid, prog, proc):
                 k.yield_('task-tick')
         elif op == 'sleep':
             k.sleep(ins[1])
+        elif op == 'until':
+            # the task finishes (or does its next step) at a chosen internal instant of the parent: it parks
+            # until the named event has been seen for its own job (or `limit` simulated seconds have passed)
+            W = k.cfg.get('_world')
+            if W is not None:
+                owner = W.item_owner.get(uid, uid)
+                rec = W.jobs.get(owner)
+                name = '%s:%s' % (ins[1], rec.jobid if rec is not None else None)
+                a = k.enter('until:' + ins[1])
+                k.wait_until(a, lambda: W.flags.get(name), k.now + ins[2], 'until:' + ins[1])
+                if W.flags.get(name):
+                    k.fault_fired('task_step_placed_at_' + ins[1].replace('-', '_'))
         elif op == 'ret':
             return ('v', uid, ins[1])
         elif op == 'raise':
